@@ -42,4 +42,14 @@ def jobs(tier):
             out.extend(tjobs(f"{H}:c02_layout", t, tier, shrink=shrink, fixed={"s1": s1}, extra_params=[("s2", "int"), ("p1", "int"), ("p2", "int")],
                              extra_pre=[f"0 <= s2 < {len(PSEPS)}", f"0 <= p1 < {len(PADS)}", f"0 <= p2 < {len(PADS)}"], functions=F, timeout=600,
                              note=f"{t} rendered with sequential separator {SEPS[s1]!r} and solver-chosen parallel separator / padding / comments: same statement tree"))
+    from ..harness.strings import COMMENTS, BADTOK, ERRBASE
+    from ..spec import reflex
+    from ..harness.strings import ERRSTRIDE
+    ntok = (len(reflex.tokens(ERRBASE)) + ERRSTRIDE - 1) // ERRSTRIDE
+    for cm in range(len(COMMENTS)):
+        for bad in range(len(BADTOK)):
+            out.append(CH(name=f"c02_errpos_c{cm}_b{bad}", base="c02_errpos", func=f"{H}:c02_errpos", params=[("p1", "int"), ("p2", "int")],
+                          pre=[f"0 <= p1 <= {ntok}", f"p1 <= p2 <= {ntok}"], fixed={"cm": cm, "bad": bad}, timeout=600, functions=F + ["JaqalLexer.ignore_comment", "JaqalLexer.ignore_multiline_comment"],
+                          note=f"comment {COMMENTS[cm]!r} in front of a solver-chosen token (every 4th token boundary of a 48-token program) and offending token {BADTOK[bad]!r} in front of a later one: same tree / same error "
+                               "token as without the comment (line and column shifted by exactly the comment), never before the offending token"))
     return out
